@@ -1,6 +1,8 @@
 import AlgopyVerif.Proofs.Analytic
 import AlgopyVerif.Proofs.Analytic2
 import AlgopyVerif.Proofs.Closure
+import AlgopyVerif.Proofs.Ode
+import AlgopyVerif.Proofs.SpecialFns
 import AlgopyVerif.Proofs.Lift
 /-!
 # C01 — elementary functions return the Taylor coefficients of `f(x(t))`
@@ -20,10 +22,12 @@ natural powers, sin, cos, tan, sinh, cosh, tanh, arctan, arcsin, arccos, logit, 
 away from their kinks (each with the base values the code uses: `1/cos²x₀`, `1-tanh²x₀`,
 `1+x₀²`, `cos(arcsin x₀)`, `-sin(arccos x₀)`, …).  The kernels are closed under composition
 (`JetOf`, `jet_*` below): a kernel applied to the jet of *any* smooth germ returns the jet of the
-composite, by the jet lemma `tc_comp_congr`.  Formal layer
-proved: exp, log, sqrt, sin/cos, reciprocal (and mul/div in C02).  Not proved (model + correspondence
-only): the Faà-di-Bruno family through `_eval_slow_generic` (gammaln, psi, polygamma, hyperu),
-`dawsn` (generic ODE solver), `botched_clip`.
+composite, by the jet lemma `tc_comp_congr`.  `_eval_slow_generic` (gammaln, psi, polygamma, hyperu)
+is proved for *every* smooth `f` whose derivative leaves are `f⁽ᵈ⁾(x₀)` (Faà di Bruno in power form,
+`faa_power`); the generic ODE solver `_taylor_polynomials_of_ode_solutions` for every system
+`b(u)v' - a(u)v = c(u)` and `_dawsn` for every `F` with `F' = 1 - 2yF`; `botched_clip` away from the
+kinks.  Formal layer proved: exp, log, sqrt, sin/cos, reciprocal (and mul/div in C02).  Not proved:
+analytic statements for complex coefficients (the formal layer and the correspondence cover them).
 -/
 open AV
 open scoped ContDiff
@@ -170,6 +174,54 @@ theorem minimum_maximum_taylor (x y : List ℝ) (hl : y.length = x.length) (h : 
     ∧ co (selectS 0 x y) d = tc (fun t => max (curve x t) (curve y t)) d := by
   have := min_jet (jetOf_curve x) (jetOf_curve y) hl (by simpa only [curve_zero] using h)
   exact ⟨this.1.coeff d (by simpa [selectS] using hd), this.2.coeff d (by simpa [selectS] using hd)⟩
+
+/-! ### the Faà-di-Bruno family, the ODE family, clipping -/
+
+/-- `_eval_slow_generic(f, x)` (gammaln, psi, polygamma, hyperu): for every `f` smooth at `x₀` and
+derivative leaves `derivs[d] = f⁽ᵈ⁾(x₀)` (what C16 establishes for `algopy.nthderiv`) -/
+theorem slow_generic_taylor (x : List ℝ) (f : ℝ → ℝ) (hf : ContDiffAt ℝ ∞ f (co x 0)) (derivs : List ℝ)
+    (hd : ∀ d, d < x.length → co derivs d = iteratedDeriv d f (co x 0)) (d : ℕ) (hdl : d < (slowGenericS derivs x).length) :
+    co (slowGenericS derivs x) d = tc (fun t => f (curve x t)) d :=
+  (slowGeneric_jet (jetOf_curve x) f (by simpa only [curve_zero] using hf) derivs
+    (by simpa only [curve_zero] using hd)).coeff d hdl
+
+/-- Faà di Bruno (power form): `tc (f ∘ X) i = Σ_{d ≤ n} f⁽ᵈ⁾(X 0)/d! · tc ((X - X 0)^d) i` for `n ≥ i` -/
+theorem faa_di_bruno {X : ℝ → ℝ} (hX : Smooth0 X) (i n : ℕ) (h : i ≤ n) (f : ℝ → ℝ) (hf : ContDiffAt ℝ ∞ f (X 0)) :
+    tc (fun t => f (X t)) i = ∑ d ∈ Finset.range (n + 1), tcAt f (X 0) d * tc (fun t => shift0 X t ^ d) i :=
+  faa_power hX i n h f hf
+
+/-- `_dawsn`: for every smooth `F` with `F'(y) = 1 - 2 y F(y)` (Dawson's integral; leaf `F(x₀)` from SciPy) -/
+theorem dawsn_taylor (x : List ℝ) (F : ℝ → ℝ) (hF : ∀ y, HasDerivAt F (1 - 2 * y * F y) y)
+    (hFs : ContDiffAt ℝ ∞ F (co x 0)) (d : ℕ) (hd : d < (dawsnS (F (co x 0)) x).length) :
+    co (dawsnS (F (co x 0)) x) d = tc (fun t => F (curve x t)) d := by
+  have := (dawsn_jet (jetOf_curve x) F hF (by simpa only [curve_zero] using hFs)).coeff d
+    (by simpa only [curve_zero] using hd)
+  simpa only [curve_zero] using this
+
+/-- `erf`, `erfi`, Dawson's integral as concrete functions (`erfC c y = c ∫₀^y e^{-s²}`, `erfiC c y = c ∫₀^y e^{s²}`,
+`dawsonF y = e^{-y²} ∫₀^y e^{s²}`; `c = 2/√π`) -/
+theorem erf_dawsn_concrete (x : List ℝ) (c : ℝ) (d : ℕ) (hd : d < x.length) :
+    co (erfS c (Real.exp (-(co x 0 * co x 0))) (erfC c (co x 0)) x) d = tc (fun t => erfC c (curve x t)) d
+    ∧ co (erfiS c (Real.exp (co x 0 * co x 0)) (erfiC c (co x 0)) x) d = tc (fun t => erfiC c (curve x t)) d
+    ∧ co (dawsnS (dawsonF (co x 0)) x) d = tc (fun t => dawsonF (curve x t)) d := by
+  have h1 := (erfC_jet (jetOf_curve x) c).coeff d (by simpa [erfS, blackWhiteS] using hd)
+  have h2 := (erfiC_jet (jetOf_curve x) c).coeff d (by simpa [erfiS, blackWhiteS] using hd)
+  have h3 := (dawsonF_jet (jetOf_curve x)).coeff d (by simpa [dawsnS, odeS_length, curve_zero] using hd)
+  simp only [curve_zero] at h1 h2 h3
+  exact ⟨h1, h2, h3⟩
+
+/-- `botched_clip(lo, hi, x)` away from the kinks: inside the interval the identity, outside a constant -/
+theorem clip_taylor_inside (x : List ℝ) (lo hi : ℝ) (h1 : lo < co x 0) (h2 : co x 0 < hi) (d : ℕ) (hd : d < x.length) :
+    co (clipS (co x 0) 1 x) d = tc (fun t => max lo (min (curve x t) hi)) d := by
+  have := (clip_jet_inside (jetOf_curve x) lo hi (by simpa only [curve_zero] using h1)
+    (by simpa only [curve_zero] using h2)).coeff d (by simpa [clipS] using hd)
+  simpa only [curve_zero] using this
+
+theorem clip_taylor_outside (x : List ℝ) (lo hi : ℝ) (hlh : lo ≤ hi) (d : ℕ) (hd : d < x.length) :
+    (co x 0 < lo → co (clipS lo 0 x) d = tc (fun t => max lo (min (curve x t) hi)) d)
+    ∧ (hi < co x 0 → co (clipS hi 0 x) d = tc (fun t => max lo (min (curve x t) hi)) d) :=
+  ⟨fun h => (clip_jet_below (jetOf_curve x) lo hi hlh (by simpa only [curve_zero] using h)).coeff d (by simpa [clipS] using hd),
+   fun h => (clip_jet_above (jetOf_curve x) lo hi hlh (by simpa only [curve_zero] using h)).coeff d (by simpa [clipS] using hd)⟩
 
 /-! ### closure under composition: kernels applied to the jet of any smooth germ -/
 
